@@ -17,6 +17,22 @@ CTL_NOTE = ("Trusted: Lean kernel (axioms propext, Classical.choice, Quot.sound 
 PROC_NOTE = ("Trusted: Lean kernel (axioms propext, Classical.choice, Quot.sound only); the hand-written process/CLI/report-writer models, tied to the code by K-proc: the real cambrian binary run with scripted "
              "objprog children whose completion order is dictated through release files, survivors found by a /proc scan for a marker environment variable; OS semantics of process groups and signals are assumed (listed in DESIGN 3.5).")
 TEXT = {
+    "C09": {
+        "text": "PARTIAL. Theorems over the controller+core model for every schedule: the whole observable trace (evaluate() calls with seed/id/parameters, report items, final report) is a function of exactly the declared inputs (configuration, "
+                "initial value, objective results in completion order, random decisions); later completions never revise earlier actions; impossible completions are no-ops; seeds are 0,1,2,... in start order. That the real random stream "
+                "and map iteration are themselves input-determined is not expressible in the model: it is decided by twin runs (same scripted run twice in one process and once in a fresh process, bit-for-bit trace comparison, nc 1..7 with "
+                "harness-fixed completion orders, sample sizes 1..3, nested maps) and by source lint L2 (no entropy sources, RandomState, clocks or global mutable state in decision paths).",
+        "design_ref": "7 (C09), 5.3 (L2)", "note": CTL_NOTE,
+        "technique": "Lean 4 theorems (trace is a causal function of the declared inputs) + twin-run differential (in-process and cross-process) + determinism lint",
+    },
+    "C17": {
+        "text": "PARTIAL. Theorems: select_ref's loop has the distribution p(1-p)^i + (1-p)^n/n, it sums to 1 and is non-increasing in the rank for every pressure in [0,1] and every length (Rat, Mathlib ring/linarith); every result mutation may "
+                "produce at probability 1 flips every boolean, changes every enum, switches every variant, flips every optional and resizes every map, at any nesting (mutual structural induction over the acceptor). Tests (labelled): select_ref "
+                "frequencies vs the model (6-sigma), numeric leaves with scale >= 1 change within 64 attempts, recombination at crossover probability 1 gives a mixed offspring within 64 attempts, and the benchmark battery with stated thresholds "
+                "(sphere2 1e4x, sphere5 1e3x, sphere10 20x in 2000 evaluations; bound/grid/onemax/mapsize/choice reach the optimum) at nc 1 and 4 with two completion orders.",
+        "design_ref": "7 (C17), 3.3", "note": OPS_NOTE,
+        "technique": "Lean 4 proofs (exact selection distribution over Rat; mutual structural induction for operator liveness) + statistical correspondence + deterministic benchmark regression",
+    },
     "C07": {
         "text": "PARTIAL. Theorems over the per-evaluation machine and the controller: a child finishing in time is never killed; timeout = killpg + waitpid + rejected; every other ending (abort, dropped future) kills the group; every started "
                 "evaluation is accounted for at the return (processed, failed, or dropped - and the dropped list is exactly what is in flight then). The claim about real processes rests on OS assumptions and on running the real binary: every "
